@@ -261,6 +261,9 @@ theorem step_stale {s : State} (h : Inv s) (op : Op) :
     simp only at i2 he hl
     rw [i2] at he
     exact Or.inl ⟨he, hl⟩
+  | lateRemove pid =>
+    intro e he hl
+    exact Or.inl ⟨he, hl⟩
 
 /-- no entry of `pipes` names a closed descriptor -/
 def NoStale (s : State) : Prop := ∀ e ∈ s.red.pipes, lookup s.fdt e.fd ≠ none
@@ -386,6 +389,10 @@ theorem step_fdt_length {s : State} (h : Inv s) (op : Op) :
     omega
   | stop =>
     have : (step s .stop).1.fdt.length = s.fdt.length := rfl
+    omega
+  | lateRemove pid =>
+    have : (step s (.lateRemove pid)).1.fdt.length = s.fdt.length := rfl
+    have : (step s (.lateRemove pid)).1.procs.length = s.procs.length := rfl
     omega
 
 theorem peakLive_ge (s : State) (ops : List Op) : s.procs.length ≤ peakLive s ops := by
